@@ -113,7 +113,7 @@ func c13Run(c c13Case) (viol string) {
 		if t.Equal(t0) {
 			t = t0.Add(time.Duration(i) * 1234567891)
 		}
-		files[i] = &memFile{name: c.Names[i], data: d, t: t, hash: vh.MD5(d), prev: "prev of " + c.Names[i]}
+		files[i] = &memFile{name: c.Names[i], data: d, t: t, hash: vh.MD5(d), prev: c.Names[(i+1)%len(c.Names)]} // the predecessor is another file of the source: its name may hold separators when the part's own name holds none
 	}
 	opener := func(f sts.File) (sts.Readable, error) {
 		for _, mf := range files {
